@@ -35,6 +35,8 @@ THEOREMS = {
         "Dawgs.C05.Facts.inputs_not_written",
         "Dawgs.C05.Facts.library_values_not_written",
         "Dawgs.C05.Facts.unguarded_partial_sites_known",
+        "Dawgs.C05.Facts.parameter_value_index_guarded",
+        "Dawgs.C05.Facts.parameter_value_types_generated",
         "Dawgs.C05.Facts.kind_mapper_locked",
         "Dawgs.C05.Facts.kind_mapper_check_then_act",
         "Dawgs.C05.Facts.kinds_interned_atomically",
@@ -129,8 +131,22 @@ CLAUSES = {
 }
 
 
+def param_values_table():
+    """harness/c05params.go (one `{"type", "form", func…}` entry per line) -> Generated/C05_paramvalues.lean: the dynamic types and forms
+    of the parameter values the harness puts into every parameter position; the runner checks each declaration against the value itself."""
+    rows = re.findall(r'^\t\{"([^"]+)", "([^"]+)", func\(\) any', open(os.path.join(verif.HARNESS, "c05params.go")).read(), re.M)
+    npos = len(re.findall(r'^\t\{"[a-z\-]+", "[A-Z][^"]*"\},$', open(os.path.join(verif.HARNESS, "c05params.go")).read(), re.M))
+    out = ["-- GENERATED by lib/props/c05.py from harness/c05params.go — do not edit", "namespace Dawgs.Generated.C05", "",
+           "/-- (dynamic type, form) of every generated parameter value; form = nil / empty / nonempty / value (suffixes after '-' dropped) -/",
+           "def generatedParamValues : List (String × String) := ["]
+    out.append(",\n".join('  ("%s", "%s")' % (t, f.split("-")[0]) for t, f in rows))
+    out += ["]", "", "def generatedParamPositions : Nat := %d" % npos, "", "end Dawgs.Generated.C05", ""]
+    open(os.path.join(verif.LEAN, "Dawgs", "Generated", "C05_paramvalues.lean"), "w").write("\n".join(out))
+
+
 def do_regen(ctx):
     regen.c05_facts()
+    param_values_table()
     regen.goext("c12api", "C12Api.lean")   # graph/*.go: which methods write through their receiver (shared with C12)
 
 
@@ -233,15 +249,19 @@ SPEC = {
             "multi-path shapes (2-3 path variables, each referenced at least twice through nodes()/relationships()/size() in RETURN or only in the tail WHERE). + 16 totality shapes + 12 fixed and 40 (600) generated property maps whose keys differ only in case (ASCII and Unicode case pairs; node / relationship / "
             "CREATE / SET += positions; values as parameters so that the walk order shows in the parameter numbering) + 16 parameter-shape cases including library values "
             "(*graph.Properties fresh with nil Map, with nil tracking sets, after Set/Delete, nil pointer; graph.Kinds, []graph.ID(nil), *time.Time, empty vs nil slices and maps) "
-            "compared structurally before / after the sequential phase and after the concurrent phase, nil-vs-empty included. Battery per case: the SAME AST object and parameter map translated 10x sequentially and 16x concurrently against ONE kind mapper "
+            "compared structurally before / after the sequential phase and after the concurrent phase, nil-vs-empty included + the parameter VALUE matrix of harness/c05params.go: "
+            "15 parameter positions (IN list, id list, property / kinds comparison, pattern / CREATE / SET property and property map, UNWIND, relationship property, function "
+            "argument, projection, SKIP/LIMIT) x 92 values: one of every dynamic type the type switches of pgsql.ValueToDataType / NegotiateValue know (table regenerated from "
+            "the source, Facts.parameter_value_types_generated) in nil / empty non-nil / non-empty form for slices and maps, nil / non-nil for pointers, []any also with one, "
+            "several, mixed, nested-empty, nil elements, plus unsupported types. Battery per case: the SAME AST object and parameter map translated 10x sequentially and 16x concurrently against ONE kind mapper "
             "shared by the whole run, each under recover with a 10 s budget; all 26 outcomes (status, error text, SQL, result parameters) byte-compared; ToSexp(AST) and "
             "ToSexp(params) compared before/after. Non-trivial = the full battery of 26 translations ran (the query translates or is rejected with an error). "
             "suite walkc05 (tie): the REAL walk.Generic instantiated on the harness's tree type with scripted visitors (Consume / SetDone / SetError at the k-th callback, "
             "cursor constructor refusing a label) vs the Lean model: all trees <= 4 (5) nodes x every single action at every callback index, + random trees <= 16 nodes x "
             "up to 3 actions; non-trivial = at least three callbacks. distinct = distinct op lines (sha1)",
-    "expected_branches": ["class.ok", "class.err", "kind.mutant", "kind.builder", "kind.hand", "kind.params", "kind.kindmapper", "gen.pathshapes", "walk.with_consume", "walk.err", "walk.conserr"],
+    "expected_branches": ["class.ok", "class.err", "kind.mutant", "kind.builder", "kind.hand", "kind.params", "ptype.[]any.empty", "ptype.[]any.nil", "ptype.[]string.empty", "ptype.map[string]any.empty", "kind.kindmapper", "gen.pathshapes", "walk.with_consume", "walk.err", "walk.conserr"],
     "trusted_base": ["tools/extract/gotyped c05 (go/types classification of map ranges and of parameter/query uses)",
-                     "harness/c05.go battery (recover, time budget, byte comparison, reflection S-expressions of inputs)",
+                     "harness/c05params.go (declared type/form of each value checked by the runner against the value)", "harness/c05.go battery (recover, time budget, byte comparison, reflection S-expressions of inputs)",
                      "Go race detector in the thorough tier"],
     "assumptions": ["panic-freedom and bounded time of the translator are covered by search only, not by proof",
                     "deepness of cypher.Copy field by field is C11's theorem (copy_equal_and_fresh over the regenerated schema); C05 uses the minimal address model and checks AST immutability at run time",
@@ -321,7 +341,7 @@ def totality_pass(tier, seed):
     shutil.rmtree(work, ignore_errors=True)
     os.makedirs(os.path.join(work, "cov"))
     cover_bin = verif.HARNESS_BIN + "-cover"
-    rc, o = verif.sh(["go", "build", "-cover", "-coverpkg=.,github.com/specterops/dawgs/cypher/models/pgsql/translate", "-tags", "verif", "-o", cover_bin, "."],
+    rc, o = verif.sh(["go", "build", "-cover", "-coverpkg=.,github.com/specterops/dawgs/cypher/models/pgsql/translate,github.com/specterops/dawgs/cypher/models/pgsql", "-tags", "verif", "-o", cover_bin, "."],
                      cwd=verif.HARNESS, env=verif.GOENV, timeout=1800)
     if rc != 0:
         out["error"] = "coverage build failed: " + o[-400:]
